@@ -292,6 +292,32 @@ def shrink_list(xs, still_fails, max_steps=400):
 # known findings, evidence, verdict
 # ---------------------------------------------------------------------------------------------
 
+def export(ctx):
+    """Picklable result of one exploration stream."""
+    return dict(violations=ctx.violations, disagreements=ctx.disagreements, broken=ctx.broken, cov=ctx.cov,
+                evaluations=ctx.evaluations, nontrivial=ctx.nontrivial, traces=ctx.traces_validated, notes=ctx.notes,
+                stream=getattr(ctx, 'stream', 0))
+
+
+def merge(ctx, res):
+    for v in res['violations']:
+        if isinstance(v.get('input'), dict):
+            v['input'].setdefault('_stream', res['stream'])
+        ctx.violations.append(v)
+    ctx.disagreements += res['disagreements']
+    names = {b['name'] for b in ctx.broken}
+    ctx.broken += [b for b in res['broken'] if b['name'] not in names]
+    for k, v in res['cov'].items():
+        if isinstance(v, (int, float)) and not isinstance(v, bool) and isinstance(ctx.cov.get(k, 0), (int, float)):
+            ctx.cov[k] = ctx.cov.get(k, 0) + v
+        else:
+            ctx.cov.setdefault(k, v)
+    ctx.evaluations += res['evaluations']
+    ctx.nontrivial |= res['nontrivial']
+    ctx.traces_validated += res['traces']
+    ctx.notes += [n for n in res['notes'] if n not in ctx.notes]
+
+
 def load_known():
     p = os.path.join(VERIF, 'known_findings.json')
     if not os.path.exists(p):
